@@ -73,6 +73,10 @@ ORDERS = None
 def gen(t, rng, ds, role):
     """-> python object of table type t"""
     global ORDERS
+    if t == "Order":
+        if ORDERS is None:
+            ORDERS = sorted(imath.Eulerf.Order.values.items())
+        return rng.choice(ORDERS)[1]
     if t in PRIM:
         return gen_num(PRIM[t], rng, ds, role)
     kind, suf = TYPE_RE.match(t).groups()
@@ -81,7 +85,7 @@ def gen(t, rng, ds, role):
         n = NCOMP[kind]
         whole = rng.random()
         nums = [gen_num(suf, rng, ds, role) for _ in range(n)]
-        if ds == "edge" and role not in ("divisor",) and suf in ("f", "d") and kind[0] in "VQC":
+        if ds == "edge" and role not in ("divisor", "nonzero") and suf in ("f", "d") and kind[0] in "VQC":
             # whole-element failure inputs of the scalar operations: the zero vector, denormal-only and overflowing
             # vectors, axis-aligned, all components equal
             if whole < 0.12:
@@ -159,6 +163,8 @@ def _attr(o, n):
 
 def flat_nums(t, o):
     """python object -> component values, as stored"""
+    if t == "Order":
+        return [("order", int(o))]
     if t in PRIM:
         return [o]
     kind, suf = TYPE_RE.match(t).groups()
@@ -188,6 +194,8 @@ def flat_nums(t, o):
 
 
 def base_of(t):
+    if t == "Order":
+        return "i"
     if t in PRIM:
         return PRIM[t]
     return TYPE_RE.match(t).group(2)
@@ -244,6 +252,10 @@ def canon(tokens_):
 def role_for(cls, method, pos, t, types):
     m = method.lower()
     b = base_of(t)
+    if b in ("f", "d") and m.startswith("__r") and "div" in m and pos == 0:
+        return "nonzero"       # t / v: the bindings raise "Division by zero" for a zero component (by design)
+    if b not in ("f", "d") and m.startswith("__r") and "div" in m:
+        return "divisor" if pos == 0 else "moderate"      # t / v: the vector is the divisor
     if b not in ("f", "d") and ("div" in m or m in ("divs", "mods", "divp", "modp")) and pos > 0:
         return "divisor"
     if cls == "imath" and m in ("divs", "mods", "divp", "modp"):
